@@ -11,6 +11,9 @@ namespace Tcpcl
 
 def chunkSize : Nat := 10240
 
+/-- `SessionInit.SIZE_MAX`, the default announced transfer MRU -/
+def sizeMax : Nat := 2 ^ 64 - 1
+
 structure Cfg where
   passive : Bool := false
   nodeId : Bytes := []
@@ -125,6 +128,10 @@ structure Ep where
   successLog : List Nat := []
   /-- ghost: octets accepted by the socket -/
   accepted : Bytes := []
+  /-- ghost: number of transfers started so far -/
+  nStarted : Nat := 0
+  /-- ghost: every octet handed to `recv_raw`, in order -/
+  rxBytes : Bytes := []
   deriving Repr, DecidableEq, Inhabited
 
 abbrev Res := Ep × List Out
@@ -162,8 +169,8 @@ def flushPendStart (e : Ep) : Res :=
 def doClose (e : Ep) : Res :=
   if e.closed then (e, [])
   else
-    let (e1, o1) := flushPendStart e
-    ({ e1 with closed := true, kaDeadline := none, idleDeadline := none }, o1 ++ [.closed])
+    let r := flushPendStart e
+    ({ r.1 with closed := true, kaDeadline := none, idleDeadline := none }, r.2 ++ [.closed])
 
 /-- `Messenger.is_sess_idle` ∧ ContactHandler's additional conditions -/
 def isSessIdle (e : Ep) : Bool :=
@@ -180,7 +187,7 @@ def sessionExt (c : Cfg) : Bytes :=
 def sendContact (e : Ep) : Ep := { sendMessage e (.contact 0) with sentContact := true }
 
 def sendInit (e : Ep) : Ep :=
-  { sendMessage e (.sessInit e.cfg.keepalive e.cfg.segMru (2^64 - 1) e.cfg.nodeId (sessionExt e.cfg))
+  { sendMessage e (.sessInit e.cfg.keepalive e.cfg.segMru sizeMax e.cfg.nodeId (sessionExt e.cfg))
     with sentInit := true }
 
 /-- `send_sess_term` (ContactHandler level: also flushes the unstarted queue). Errors are reported
@@ -189,83 +196,81 @@ def sendSessTerm (e : Ep) (reason : Nat) (reply : Bool) : Res :=
   if !e.inSess then (e, [.raised "RuntimeError"])
   else if e.inTerm then (e, [.raised "RuntimeError"])
   else
-    let (e1, o1) := setState { e with inTerm := true } "ending"
-    let e2 := sendMessage e1 (.sessTerm (if reply then 1 else 0) reason)
-    let (e3, o3) := flushPendStart e2
-    (e3, o1 ++ o3)
+    let r1 := setState { e with inTerm := true } "ending"
+    let r3 := flushPendStart (sendMessage r1.1 (.sessTerm (if reply then 1 else 0) reason))
+    (r3.1, r1.2 ++ r3.2)
 
 def transferExt (c : Cfg) (start : Bool) (total : Nat) : Bytes :=
   (if c.privExt then encExtItem ⟨1, 0xFF, List.replicate 10 0⟩ else [])
   ++ (if start then encExtItem ⟨0, 1, u64 total⟩ else [])
 
+/-- emit the next segment of the active transfer `it` of which `sent` octets are out already.
+    Returns whether the idle source stays installed (never, here). -/
+def sendSegment (e : Ep) (it : TxItem) (sent : Nat) : Ep × List Out × Bool :=
+  let seg := (it.data.drop sent).take e.sendSegSize
+  let sent' := sent + seg.length
+  let isStart := sent == 0
+  let isEnd := sent' == it.data.length
+  let flags := (if isEnd then flagEnd else 0) + (if isStart then flagStart else 0)
+  let ext := if isStart then transferExt e.cfg true it.data.length
+             else if e.cfg.privExt then transferExt e.cfg false 0 else []
+  if !isStart && e.cfg.privExt then
+    -- send_xfer_data refuses extension items outside START: RuntimeError escapes the idle callback
+    ({ e with txTmp := some (it, sent') }, [.escaped "RuntimeError"], false)
+  else
+    let e2 := sendMessage e (.xferSegment flags it.tid ext seg)
+    if isEnd then
+      (pqTrigger { e2 with txTmp := none, txPendAck := e2.txPendAck ++ [it.tid] }, [], false)
+    else
+      ({ e2 with txTmp := some (it, sent') }, [], false)
+
 /-- `_process_queue` body (one firing of the idle source). Returns whether the source stays. -/
 def processQueue (e : Ep) : Ep × List Out × Bool :=
-  -- pick the next transfer if none is active
-  let pick : Option (Ep × List Out) :=
-    match e.txTmp with
-    | some _ => some (e, [])
-    | none =>
+  match e.txTmp with
+  | some (it, sent) => sendSegment e it sent
+  | none =>
+    if !e.inSess then (e, [], true)          -- waiting for session: source stays
+    else if e.inTerm then
+      let r1 := flushPendStart e
+      let r2 := checkSessTerm r1.1
+      (r2.1, r1.2 ++ r2.2, false)
+    else
       match e.txPendStart with
-      | [] => none
+      | [] => (e, [], false)
       | it :: rest =>
-        some ({ e with txPendStart := rest, txTmp := some (it, 0) },
-              [.sig "send_bundle_started" [.str (natStr it.tid), .nat it.data.length]])
-  if e.txTmp.isNone && !e.inSess then (e, [], true)          -- waiting for session: source stays
-  else if e.txTmp.isNone && e.inTerm then
-    let (e1, o1) := flushPendStart e
-    let (e2, o2) := checkSessTerm e1
-    (e2, o1 ++ o2, false)
-  else
-  match pick with
-  | none => (e, [], false)
-  | some (e1, o1) =>
-    match e1.txTmp with
-    | none => (e1, o1, false)
-    | some (it, sent) =>
-      let seg := (it.data.drop sent).take e1.sendSegSize
-      let sent' := sent + seg.length
-      let isStart := sent == 0
-      let isEnd := sent' == it.data.length
-      let flags := (if isEnd then flagEnd else 0) + (if isStart then flagStart else 0)
-      let ext := if isStart then transferExt e1.cfg true it.data.length
-                 else if e1.cfg.privExt then transferExt e1.cfg false 0 else []
-      if !isStart && e1.cfg.privExt then
-        -- send_xfer_data refuses extension items outside START: RuntimeError escapes the idle callback
-        ({ e1 with txTmp := some (it, sent') }, o1 ++ [.escaped "RuntimeError"], false)
-      else
-      let e2 := sendMessage e1 (.xferSegment flags it.tid ext seg)
-      if isEnd then
-        let e3 := pqTrigger { e2 with txTmp := none, txPendAck := e2.txPendAck ++ [it.tid] }
-        (e3, o1, false)
-      else
-        ({ e2 with txTmp := some (it, sent') }, o1, false)
+        let r := sendSegment { e with txPendStart := rest, txTmp := some (it, 0), nStarted := e.nStarted + 1 } it 0
+        (r.1, Out.sig "send_bundle_started" [.str (natStr it.tid), .nat it.data.length] :: r.2.1, r.2.2)
 
 /-- `send_buffer_decreased` heuristic -/
 def sendBufferDecreased (e : Ep) : Ep :=
   if e.txBuf.length < 5 * e.sendSegSize then pqTrigger e else e
 
-/-- one TX callback (`_avail_tx_notls` → `_tx_proxy`), socket accepting at most `n` octets -/
-def pump (e : Ep) (n : Nat) : Res :=
-  let pulls := e.connBuf.length < chunkSize
-  let data0 := if pulls then e.txBuf.take chunkSize else []
-  let upEmpty := pulls && data0.isEmpty
-  let e1 :=
-    if pulls then
-      sendBufferDecreased { e with txBuf := e.txBuf.drop data0.length, connBuf := e.connBuf ++ data0 }
-    else e
-  if e1.connBuf.isEmpty then
-    -- nothing to write; `cont` is false exactly when nothing was pulled either
-    if upEmpty then checkSessTerm e1 else (e1, [])
+/-- first half of `_tx_proxy`: pull up to CHUNK_SIZE octets from the message level -/
+def pullTx (e : Ep) : Ep :=
+  if e.connBuf.length < chunkSize then
+    sendBufferDecreased { e with txBuf := e.txBuf.drop chunkSize, connBuf := e.connBuf ++ e.txBuf.take chunkSize }
+  else e
+
+/-- was the pull empty (`up_empty`) -/
+def upEmpty (e : Ep) : Bool := e.connBuf.length < chunkSize && e.txBuf.isEmpty
+
+/-- second half of `_tx_proxy`: write, then notice that everything has drained -/
+def writeConn (e : Ep) (n : Nat) (up : Bool) : Res :=
+  if e.connBuf.isEmpty then
+    if up then checkSessTerm e else (e, [])
   else
-    let data := e1.connBuf.take chunkSize
+    let data := e.connBuf.take chunkSize
     let k := min n data.length
-    if k == 0 then doClose e1
+    if k == 0 then doClose e
     else
-      let e2 := { e1 with connBuf := e1.connBuf.drop k, accepted := e1.accepted ++ data.take k }
-      if upEmpty && e2.connBuf.isEmpty then
-        let (e3, o3) := checkSessTerm e2
-        (e3, [.wire (data.take k)] ++ o3)
+      let e2 := { e with connBuf := e.connBuf.drop k, accepted := e.accepted ++ data.take k }
+      if up && e2.connBuf.isEmpty then
+        let r := checkSessTerm e2
+        (r.1, Out.wire (data.take k) :: r.2)
       else (e2, [.wire (data.take k)])
+
+/-- one TX callback (`_avail_tx_notls` → `_tx_proxy`), socket accepting at most `n` octets -/
+def pump (e : Ep) (n : Nat) : Res := writeConn (pullTx e) n (upEmpty e)
 
 /- ------------------------------------------------------------------ receiving -/
 
@@ -276,104 +281,110 @@ def rejUnknown : Nat := 1
 
 /-- `merge_session_params` without TLS -/
 def mergeSession (e : Ep) (p : PeerInit) : Ep :=
-  let ka := min e.cfg.keepalive p.keepalive
-  idleReset (kaReset { e with kaTime := ka, idleTime := e.cfg.idle, sendSegSize := min e.cfg.segInit p.segMru })
+  idleReset (kaReset { e with kaTime := min e.cfg.keepalive p.keepalive, idleTime := e.cfg.idle,
+                              sendSegSize := min e.cfg.segInit p.segMru })
 
 def rxMapSet (m : List (Nat × Bytes)) (tid : Nat) (d : Bytes) : List (Nat × Bytes) :=
   if m.any (·.1 == tid) then m.map (fun kv => if kv.1 == tid then (tid, d) else kv) else m ++ [(tid, d)]
 
-/-- `recv_message` for one decoded message (contact header included) -/
-def handleMsg (e : Ep) (m : Msg) : Res :=
-  let e := { e with processed := e.processed ++ [m] }
-  match m with
-  | .contact _ =>
-    let e1 := if e.cfg.passive then sendContact e else e
-    let (e2, o2) := setState e1 "session-negotiating"
-    -- TLS disabled on this side: never attempted; require_tls = None
-    let e3 := if !e.cfg.passive then sendInit e2 else e2
-    (e3, o2)
-  | .sessInit ka sm xm node _ =>
-    let e1 := if e.cfg.passive then sendInit e else e
-    let p : PeerInit := ⟨ka, sm, xm, node⟩
-    let e2 := mergeSession { e1 with peerInit := some p, inSess := true } p
-    setState e2 "established"
-  | .sessTerm _ reason =>
-    if !e.inSess then (sendReject e rejUnexpected m, [])
+def onContact (e : Ep) : Res :=
+  let e1 := if e.cfg.passive then sendContact e else e
+  let r2 := setState e1 "session-negotiating"
+  -- TLS disabled on this side: never attempted; require_tls = None
+  (if !e.cfg.passive then sendInit r2.1 else r2.1, r2.2)
+
+def onSessInit (e : Ep) (p : PeerInit) : Res :=
+  let e1 := if e.cfg.passive then sendInit e else e
+  setState (mergeSession { e1 with peerInit := some p, inSess := true } p) "established"
+
+def onSessTerm (e : Ep) (m : Msg) (reason : Nat) : Res :=
+  if !e.inSess then (sendReject e rejUnexpected m, [])
+  else
+    let r1 := if !e.inTerm then sendSessTerm e reason true else (e, [])
+    let r2 := flushPendStart { r1.1 with gotTerm := true }
+    let r3 := checkSessTerm r2.1
+    (r3.1, r1.2 ++ r2.2 ++ r3.2)
+
+/-- a segment accepted into the transfer `(tid, cur)`; `o1` = signals already due (started) -/
+def segAccept (e : Ep) (flags tid : Nat) (cur data : Bytes) (o1 : List Out) : Res :=
+  let d' := cur ++ data
+  if hasEnd flags then
+    let e2 := sendMessage e (.xferAck flags tid d'.length)
+    let r := checkSessTerm { e2 with rxTmp := none, rxMap := rxMapSet e2.rxMap tid d', rxLog := e2.rxLog ++ [(tid, d')] }
+    (r.1, o1 ++ [.sig "recv_bundle_finished" [.str (natStr tid), .nat d'.length, .str "success"]] ++ r.2)
+  else
+    (sendMessage { e with rxTmp := some (tid, d') } (.xferAck flags tid d'.length),
+     o1 ++ [.sig "recv_bundle_intermediate" [.str (natStr tid), .nat d'.length]])
+
+def onSegment (e : Ep) (m : Msg) (flags tid : Nat) (data : Bytes) : Res :=
+  if !e.inSess then (sendReject e rejUnexpected m, [])
+  else if hasStart flags then
+    segAccept { e with rxTmp := some (tid, []) } flags tid [] data
+      [.sig "recv_bundle_started" [.str (natStr tid), .str ""]]
+  else
+    match e.rxTmp with
+    | some (t, d) => if t == tid then segAccept e flags tid d data [] else (sendReject e rejUnexpected m, [])
+    | none => (sendReject e rejUnexpected m, [])
+
+def onAck (e : Ep) (m : Msg) (flags tid len : Nat) : Res :=
+  if !e.inSess then (sendReject e rejUnexpected m, [])
+  else if !e.txMap.contains tid then (sendReject e rejUnexpected m, [])
+  else if hasEnd flags then
+    if !e.txPendAck.contains tid then (sendReject e rejUnexpected m, [])
     else
-      let (e1, o1) := if !e.inTerm then sendSessTerm e reason true else (e, [])
-      let (e2, o2) := flushPendStart { e1 with gotTerm := true }
-      let (e3, o3) := checkSessTerm e2
-      (e3, o1 ++ o2 ++ o3)
+      let r := checkSessTerm { e with txPendAck := e.txPendAck.erase tid, txMap := e.txMap.erase tid,
+                                      successLog := e.successLog ++ [tid] }
+      (r.1, Out.sig "send_bundle_finished" [.str (natStr tid), .nat len, .str "success"] :: r.2)
+  else
+    ({ e with ackLen := (tid, len) :: e.ackLen.filter (·.1 != tid) },
+     [.sig "send_bundle_intermediate" [.str (natStr tid), .nat len]])
+
+def onRefuse (e : Ep) (m : Msg) (reason tid : Nat) : Res :=
+  if !e.inSess then (sendReject e rejUnexpected m, [])
+  else if !e.txMap.contains tid then (sendReject e rejUnexpected m, [])
+  else
+    let e1 := { e with txMap := e.txMap.erase tid, txPendAck := e.txPendAck.erase tid,
+                       txPendStart := e.txPendStart.filter (·.tid != tid) }
+    let e2 := match e1.txTmp with
+      | some (it, _) => if it.tid == tid then pqTrigger { e1 with txTmp := none } else e1
+      | none => e1
+    let r := checkSessTerm e2
+    (r.1, Out.sig "send_bundle_finished"
+        [.str (natStr tid), .nat ((e.ackLen.find? (·.1 == tid)).map (·.2) |>.getD 0),
+         .str ("refused with code " ++ natStr reason)] :: r.2)
+
+/-- `recv_message` for one decoded message (contact header included) -/
+def handleMsg (e0 : Ep) (m : Msg) : Res :=
+  let e := { e0 with processed := e0.processed ++ [m] }
+  match m with
+  | .contact _ => onContact e
+  | .sessInit ka sm xm node _ => onSessInit e ⟨ka, sm, xm, node⟩
+  | .sessTerm _ reason => onSessTerm e m reason
   | .keepalive => (e, [])
   | .msgReject _ _ => (e, [])
-  | .xferSegment flags tid _ data =>
-    if !e.inSess then (sendReject e rejUnexpected m, [])
-    else
-      let started : Option (Ep × List Out) :=
-        if hasStart flags then
-          some ({ e with rxTmp := some (tid, []) },
-                [.sig "recv_bundle_started" [.str (natStr tid), .str ""]])
-        else match e.rxTmp with
-          | some (t, _) => if t == tid then some (e, []) else none
-          | none => none
-      match started with
-      | none => (sendReject e rejUnexpected m, [])
-      | some (e1, o1) =>
-        let cur := match e1.rxTmp with | some (_, d) => d | none => []
-        let d' := cur ++ data
-        if hasEnd flags then
-          let e2 := sendMessage e1 (.xferAck flags tid d'.length)
-          let e3 := { e2 with rxTmp := none, rxMap := rxMapSet e2.rxMap tid d', rxLog := e2.rxLog ++ [(tid, d')] }
-          let (e4, o4) := checkSessTerm e3
-          (e4, o1 ++ [.sig "recv_bundle_finished" [.str (natStr tid), .nat d'.length, .str "success"]] ++ o4)
-        else
-          let e2 := sendMessage { e1 with rxTmp := some (tid, d') } (.xferAck flags tid d'.length)
-          (e2, o1 ++ [.sig "recv_bundle_intermediate" [.str (natStr tid), .nat d'.length]])
-  | .xferAck flags tid len =>
-    if !e.inSess then (sendReject e rejUnexpected m, [])
-    else if !e.txMap.contains tid then (sendReject e rejUnexpected m, [])
-    else if hasEnd flags then
-      if !e.txPendAck.contains tid then (sendReject e rejUnexpected m, [])
-      else
-        let e1 := { e with txPendAck := e.txPendAck.erase tid, txMap := e.txMap.erase tid,
-                           successLog := e.successLog ++ [tid] }
-        let (e2, o2) := checkSessTerm e1
-        (e2, [.sig "send_bundle_finished" [.str (natStr tid), .nat len, .str "success"]] ++ o2)
-    else
-      ({ e with ackLen := (tid, len) :: e.ackLen.filter (·.1 != tid) },
-       [.sig "send_bundle_intermediate" [.str (natStr tid), .nat len]])
-  | .xferRefuse reason tid =>
-    if !e.inSess then (sendReject e rejUnexpected m, [])
-    else if !e.txMap.contains tid then (sendReject e rejUnexpected m, [])
-    else
-      let o1 := [Out.sig "send_bundle_finished"
-        [.str (natStr tid), .nat ((e.ackLen.find? (·.1 == tid)).map (·.2) |>.getD 0),
-         .str ("refused with code " ++ natStr reason)]]
-      let e1 := { e with txMap := e.txMap.erase tid, txPendAck := e.txPendAck.erase tid,
-                         txPendStart := e.txPendStart.filter (·.tid != tid) }
-      let e2 := match e1.txTmp with
-        | some (it, _) => if it.tid == tid then pqTrigger { e1 with txTmp := none } else e1
-        | none => e1
-      let (e3, o3) := checkSessTerm e2
-      (e3, o1 ++ o3)
+  | .xferSegment flags tid _ data => onSegment e m flags tid data
+  | .xferAck flags tid len => onAck e m flags tid len
+  | .xferRefuse reason tid => onRefuse e m reason tid
 
 def handleMsgs : Ep → List Msg → Res
   | e, [] => (e, [])
   | e, m :: ms =>
     if e.closed then (e, []) else
-    let (e1, o1) := handleMsg e m
-    let (e2, o2) := handleMsgs e1 ms
-    (e2, o1 ++ o2)
+    let r1 := handleMsg e m
+    let r2 := handleMsgs r1.1 ms
+    (r2.1, r1.2 ++ r2.2)
+
+/-- entry of `recv_raw(chunk)`: idle timer re-armed, octets appended and framed -/
+def rxEntry (e : Ep) (chunk : Bytes) : Ep :=
+  { idleReset e with rx := (feed e.rx chunk).1, rxBytes := e.rxBytes ++ chunk }
 
 /-- `recv_raw(chunk)` -/
 def recvRaw (e : Ep) (chunk : Bytes) : Res :=
-  let e0 := idleReset e
-  let (rx', ms) := feed e0.rx chunk
-  let (e1, o1) := handleMsgs { e0 with rx := rx' } ms
-  if rx'.dead then
-    let (e2, o2) := doClose e1
-    (e2, o1 ++ o2)
-  else (e1, o1)
+  let r1 := handleMsgs (rxEntry e chunk) (feed e.rx chunk).2
+  if (feed e.rx chunk).1.dead then
+    let r2 := doClose r1.1
+    (r2.1, r1.2 ++ r2.2)
+  else r1
 
 /- ------------------------------------------------------------------ step -/
 
@@ -420,8 +431,8 @@ def step (e : Ep) (ev : Ev) : Res :=
   | .query q => (e, [.ret (queryVal e q)])
   | .procQueue =>
     if e.pqSources == 0 then (e, []) else
-    let (e1, o1, stays) := processQueue { e with pqPend := false }
-    ({ e1 with pqSources := if stays then e1.pqSources else e1.pqSources - 1 }, o1)
+    let r := processQueue { e with pqPend := false }
+    ({ r.1 with pqSources := if r.2.2 then r.1.pqSources else r.1.pqSources - 1 }, r.2.1)
   | .pump n => pump e n
   | .rx chunk => recvRaw e chunk
   | .rxEof => doClose e
@@ -434,10 +445,7 @@ def step (e : Ep) (ev : Ev) : Res :=
     | none => (e, [])
     | some _ =>
       let e1 := { e with idleDeadline := none }
-      if e1.inTerm then doClose e1
-      else
-        let (e2, o2) := sendSessTerm e1 1 false
-        (e2, o2)
+      if e1.inTerm then doClose e1 else sendSessTerm e1 1 false
 
 def run : Ep → List Ev → Ep × List (List Out)
   | e, [] => (e, [])
